@@ -61,6 +61,13 @@ def val_debugdep(ctx: Ctx) -> RuleResult:
         r.violate(f"{f.short}: validation iterates {norm_src(lp.iter)}, not every dependency", f.loc(lp),
                   "dependencies carried by the other reference fields are not validated", norm_src(lp.iter))
     dv = dotted(lp.target)
+    early = [n for n in own_walk(lp) if isinstance(n, (ast.Return, ast.Break))]
+    r.ob(not early, {"every dependency is validated (no early exit from the loop)": not early})
+    if early:
+        r.violate(f"{f.short}: the validation loop is left early ({norm_src(early[0])})", f.loc(early[0]),
+                  "dependencies that come after the one that triggers the early exit are never validated: a DAG in which a non-debug "
+                  "node depends on a debug node (or a setup node on a non-setup node) is accepted when that dependency is not the first",
+                  norm_src(early[0]))
     ifs = [n for n in lp.body if isinstance(n, ast.If) and any(isinstance(b, ast.Raise) for b in n.body)]
     dbg = [i for i in ifs if ".debug" in norm_src(i.test)]
     r.ob(len(dbg) == 1, {"refusal": norm_src(dbg[0].test) if dbg else None})
@@ -257,32 +264,104 @@ def val_compose_anc(ctx: Ctx) -> RuleResult:
 
 
 def val_conf(ctx: Ctx) -> RuleResult:
+    """Re-configuration replaces exactly the configured attributes; everything else (and every absent key) keeps the node's own value."""
     r = RuleResult("VAL-CONF")
     f = ctx.method("ExecNode", "_conf_to_values")
     p = f.node.args.args[1].arg
-    n_ok = 0
-    for key in ("priority", "is_sequential"):
-        asg = [n for n in iter_own_nodes(f.node) if isinstance(n, ast.Assign) and isinstance(n.targets[0], ast.Subscript)
-               and isinstance(n.targets[0].slice, ast.Constant) and n.targets[0].slice.value == key]
-        r.require(len(asg) == 1, f"_conf_to_values: assignment of '{key}' not found")
-        v = asg[0].value
-        s = norm_src(v)
-        good = s in (f"{p}.get('{key}', self.{key})", f"{p}['{key}'] if '{key}' in {p} else self.{key}")
+    seen = set()
+    for n in iter_own_nodes(f.node):
+        if not (isinstance(n, ast.Assign) and isinstance(n.targets[0], ast.Subscript) and isinstance(n.targets[0].slice, ast.Constant)):
+            continue
+        key = n.targets[0].slice.value
+        v = n.value
+        s_ = norm_src(v)
+        if p not in names_in(v):
+            # restoration of a field from the node itself (REF-ASDICT) - must be the node's own attribute of the same name
+            ok = s_ == f"self.{key}"
+            r.ob(ok, {key: s_})
+            if not ok:
+                r.violate(f"ExecNode._conf_to_values: '{key}' rebuilt from {s_}, not from the node's own value", f.loc(n), "", s_)
+            continue
+        seen.add(key)
+        good = s_ in (f"{p}.get('{key}', self.{key})", f"{p}['{key}'] if '{key}' in {p} else self.{key}")
         or_default = isinstance(v, ast.BoolOp) and isinstance(v.op, ast.Or)
-        r.ob(good, {key: s})
+        r.ob(good, {key: s_})
         if good:
-            n_ok += 1
-        elif or_default:
-            r.violate(f"ExecNode._conf_to_values: configured '{key}' falls back to the old value when it is falsy", f.loc(asg[0]),
-                      f"re-configuring {key} to {'0' if key == 'priority' else 'False'} is silently ignored: the node and all its "
-                      f"ancestors keep stale compound priorities / flags", s)
+            continue
+        if or_default:
+            r.violate(f"ExecNode._conf_to_values: configured '{key}' falls back to the old value when it is falsy", f.loc(n),
+                      f"re-configuring {key} to 0 / False is silently ignored: the node (and, for priorities, all its ancestors) keeps "
+                      f"stale scheduling attributes", s_)
+        elif isinstance(v, ast.Call) and isinstance(v.func, ast.Attribute) and v.func.attr == "get" and len(v.args) == 2 \
+                and norm_src(v.args[1]) != f"self.{key}":
+            r.violate(f"ExecNode._conf_to_values: an absent '{key}' falls back to {norm_src(v.args[1])}, not to the node's own value",
+                      f.loc(n), f"re-configuring any other attribute of a node silently resets its {key} (a main-thread node becomes a "
+                      f"pool node, a sequential node a parallel one, ...)", s_)
         else:
-            raise Undecided(f"_conf_to_values: form of '{key}' not recognised: {s}")
+            raise Undecided(f"_conf_to_values: form of '{key}' not recognised: {s_}")
+    for key in ("priority", "is_sequential"):
+        r.require(key in seen, f"_conf_to_values: '{key}' is not configurable any more")
+    return r
+
+
+def val_argcount(ctx: Ctx) -> RuleResult:
+    """Call arguments bind positionally to the DAG's inputs; too many are refused."""
+    r = RuleResult("VAL-ARGCOUNT")
+    fs = [f for f in pkg_funcs(ctx) if f.name == "extend_results_with_args"]
+    r.require(len(fs) == 1, "extend_results_with_args not found")
+    f = fs[0]
+    ip = f.node.args.args[1].arg
+    ap = f.node.args.vararg.arg
+    ifs = [i for i in _raising_ifs(f) if norm_src(i.test) in (f"len({ap}) > len({ip})", f"len({ip}) < len({ap})")]
+    r.ob(len(ifs) == 1, {"too many arguments refused": len(ifs) == 1})
+    if not ifs:
+        weak = [i for i in _raising_ifs(f) if ap in names_in(i.test) and ip in names_in(i.test)]
+        if weak:
+            r.violate("extend_results_with_args: the arity test changed", f.loc(weak[0]), "", norm_src(weak[0].test))
+        else:
+            r.violate("extend_results_with_args: surplus arguments are not refused", f.loc(), "TypeError expected", None)
+    loops = [n for n in iter_own_nodes(f.node) if isinstance(n, ast.For) and isinstance(n.iter, ast.Call) and dotted(n.iter.func) == "enumerate"
+             and dotted(n.iter.args[0]) == ap]
+    r.require(len(loops) == 1, "argument binding loop not found")
+    iv, av = [dotted(x) for x in loops[0].target.elts]
+    idv = [n for n in loops[0].body if isinstance(n, ast.Assign) and norm_src(n.value) == f"{ip}[{iv}].id"]
+    fs_ = [n for n in ast.walk(loops[0]) if isinstance(n, ast.Call) and isinstance(n.func, ast.Attribute) and n.func.attr == "force_set"]
+    ok = len(idv) == 1 and len(fs_) == 1 and dotted(fs_[0].args[0]) == dotted(idv[0].targets[0]) and dotted(fs_[0].args[1]) == av
+    r.ob(ok, {"i-th argument -> i-th input": ok})
+    if not ok:
+        r.violate("extend_results_with_args: the i-th argument is not bound to the i-th input", f.loc(loops[0]), "", norm_src(loops[0].body[0]))
+    return r
+
+
+def val_expand(ctx: Ctx) -> RuleResult:
+    """A configuration entry keyed by an alias is applied to EVERY node the alias resolves to; duplicates are refused."""
+    r = RuleResult("VAL-EXPAND")
+    f = ctx.method("BaseDAG", "_expand_config")
+    zips = [n for n in iter_own_nodes(f.node) if isinstance(n, ast.Call) and dotted(n.func) == "zip"]
+    comps = [n for n in iter_own_nodes(f.node) if isinstance(n, (ast.ListComp, ast.GeneratorExp))]
+    r.require(bool(zips) or bool(comps), "_expand_config: pairing of ids and configuration not found")
+    for z in zips:
+        fixed = [a for a in z.args if isinstance(a, (ast.List, ast.Tuple))]
+        ok = not fixed
+        r.ob(ok, {"pairing": norm_src(z)})
+        if fixed:
+            r.violate("BaseDAG._expand_config: ids are zipped with a fixed-length display", f.loc(z),
+                      "zip stops at the shorter sequence: a configuration keyed by a tag shared by several nodes is applied to the first "
+                      "node only; the others silently keep their old priority / is_sequential", norm_src(z))
+    # alias resolution and duplicate detection
+    res = any(isinstance(n, ast.Call) and isinstance(n.func, ast.Attribute) and n.func.attr == "alias_to_ids" for n in iter_own_nodes(f.node))
+    r.ob(res, {"aliases resolved by alias_to_ids": res})
+    cf = ctx.method("BaseDAG", "config_from_dict")
+    dup = any(isinstance(n, ast.Call) and dotted(n.func) == "detect_duplicates" for n in iter_own_nodes(cf.node))
+    r.ob(dup, {"duplicate configuration refused": dup})
+    loop = [n for n in iter_own_nodes(cf.node) if isinstance(n, ast.For)]
+    okl = any("expanded_config" in norm_src(l.iter) for l in loop)
+    r.ob(okl, {"every expanded entry is applied": okl})
     return r
 
 
 RULES = {
     "VAL-MAXC": val_maxc, "VAL-DEBUGDEP": val_debugdep, "VAL-SETUPDEP": val_setupdep, "VAL-SETUPARG": val_setuparg,
     "VAL-DEBUGSETUP": val_debugsetup, "VAL-EXECUTED": val_executed, "VAL-COMPOSE": val_compose,
-    "VAL-COMPOSE-ANC": val_compose_anc, "VAL-CONF": val_conf,
+    "VAL-COMPOSE-ANC": val_compose_anc, "VAL-CONF": val_conf, "VAL-ARGCOUNT": val_argcount, "VAL-EXPAND": val_expand,
 }
